@@ -277,6 +277,22 @@ def check(s):
         rews = [x for x in walk(("tuple", tuple(v for v in o["args"].values() if v is not None))) if isinstance(x, tuple) and x and x[0] == "call" and x[1] == ("attr", ("param", "env"), "reward")]
         s.ob("C07.6", o["con"], len(rews) == 1 and o["args"].get("reward") == rews[0], "the reward r of the target is the step's env.reward result, stored unmodified", o["loc"],
              key="collector-reward", detail=show(o["args"].get("reward", NONE), maxlen=160))
+    # ---------------------------------------------------------------- C07.8 "log pi of that action" is the density of the very draw
+    # The target subtracts alpha * log pi(a'|s') for a freshly sampled a'. For a squashed law that number has to come from the fused
+    # sample_and_log_prob of the distribution (evaluated at the pre-squash draw): recomputing log_prob(a') inverts the squashing in
+    # float32 and is off by nats - or NaN - for confident policies near an action bound.
+    for ci_ in [c for c in P.subclasses("AbstractSACPolicy") if "action_and_log_prob" in c.methods and not c.is_abstractmethod("action_and_log_prob")]:
+        bq = s.builder(inline=set())
+        locq = s.loc(ci_.name, "action_and_log_prob")
+        for pq in live(s.paths(bq, ci_.name, "action_and_log_prob")):
+            r_ = pq.ret
+            okq = isinstance(r_, tuple) and r_[0] == "tuple" and len(r_[1]) == 3
+            fused = [c for c in walk(r_) if isinstance(c, tuple) and c and c[0] == "call" and isinstance(c[1], tuple) and c[1][0] == "attr" and c[1][2] == "sample_and_log_prob"]
+            sep = [c for c in walk(r_) if isinstance(c, tuple) and c and c[0] == "call" and isinstance(c[1], tuple) and c[1][0] == "attr" and c[1][2] in ("log_prob", "sample")]
+            ok_f = okq and len(fused) == 1 and not sep and r_[1][1] == ("item", fused[0], 0) and ("item", fused[0], 1) in set(walk(r_[1][2]))
+            s.ob("C07.8", f"{ci_.name}.action_and_log_prob", ok_f,
+                 "(action, log-prob) are elements 0 and 1 of ONE dist.sample_and_log_prob(key) call (no separate sample / log_prob round trip through the squashing)", locq,
+                 key="fused-sample-logprob", detail=show(r_, maxlen=240), necessary_for="V' = min of the target critics at a freshly sampled next action minus alpha * log pi of THAT action")
     # ---------------------------------------------------------------- C07.7 the buffer keeps the tuple (r, done, timeout, s') together
     # The target combines batch.rewards, batch.dones, batch.timeouts and batch.next_observations row by row: ReplayBuffer.add must
     # write all of them at one ring index (a flag written at another slot pairs a transition with a stale done/timeout flag).
@@ -284,5 +300,5 @@ def check(s):
     check_add(s, "C07.7", "C07.7")
     from .util import no_late_binding
     no_late_binding(s, "C07.7", ("lerax.buffer", "lerax.algorithm.dqn", "lerax.algorithm.sac"), necessary_for="every field of a stored transition comes from the same insertion (a function value built in a loop must not read the loop variable late)")
-    for r, n in (("C07.1", 4), ("C07.2", 8), ("C07.3", 12), ("C07.4", 12), ("C07.5", 1), ("C07.6", 6), ("C07.7", 40)):
+    for r, n in (("C07.1", 4), ("C07.2", 8), ("C07.3", 12), ("C07.4", 12), ("C07.5", 1), ("C07.6", 6), ("C07.7", 40), ("C07.8", 1)):
         s.floor(r, n)
